@@ -337,6 +337,59 @@ func c07Read(c *Ctx) {
 	}
 	c.verdict(rule, rule+"/Read", c.P.FuncPos(f), uniq(problems), fmt.Sprintf("%d paths (0-3 bytes x step outcomes x source outcome)", len(out)))
 
+	// longer reads: whatever block-wise shortcut the loop takes, every byte must go through the automaton
+	{
+		var lp []string
+		for _, nn := range []int{7, 8, 9, 15, 16, 17, 24, 25, 33} {
+			nn := nn
+			m2 := c.machine()
+			addBinaryModels(m2)
+			m2.Models["invoke:(io.Reader).Read"] = func(cl *fold.Call) fold.Val {
+				if s, ok := cl.Args[1].(fold.SliceV); ok {
+					for i := int64(0); i < s.Len; i++ {
+						cl.M.SetElem(s, i, fold.Int{Lo: 0, Hi: 255, Name: fmt.Sprintf("b%d", i)})
+					}
+				}
+				return fold.Tuple{fold.K(int64(nn)), fold.Nil{}}
+			}
+			m2.Models[wsutil+".decode"] = func(cl *fold.Call) fold.Val {
+				cl.M.Emit(fold.Effect{Kind: "call", Name: "decode", Args: cl.Args})
+				return fold.Tuple{fold.Int{Lo: 0, Hi: 1<<32 - 1, Name: fmt.Sprintf("codep%d", cl.Seq)}, fold.K(24)} // mid-sequence state throughout
+			}
+			ps := m2.Explore(f, func(mm *fold.Machine) []fold.Val {
+				s := fold.SymOfType("u", un).(fold.Struct)
+				s.F[L.utf8Source] = fold.Iface{V: fold.Sym{Name: "Source", NonNil: true}}
+				s.F[L.utf8State] = fold.K(36)
+				s.F[L.utf8Codep] = fold.Int{Lo: 0, Hi: 1<<32 - 1, Name: "codep0"}
+				s.F[L.utf8Accepted] = fold.K(0)
+				el := make([]fold.Val, nn+3)
+				for i := range el {
+					el[i] = fold.K(0)
+				}
+				return []fold.Val{fold.Ref{O: mm.NewObj("u", s)}, mm.NewBytes("p", el)}
+			}, nil)
+			for _, p := range ps {
+				if p.Abort != "" || p.Panic {
+					lp = append(lp, fmt.Sprintf("undecided: read of %d bytes: %s%s", nn, p.Abort, panicNote(p)))
+					continue
+				}
+				steps := p.Calls("decode")
+				if len(steps) != nn {
+					lp = append(lp, fmt.Sprintf("a read of %d bytes in a mid-sequence state feeds only %d bytes to the automaton: bytes are skipped without looking at the carried state", nn, len(steps)))
+					continue
+				}
+				for i, st := range steps {
+					if k, ok := st.Args[2].(fold.Int); !ok || k.Name != fmt.Sprintf("b%d", i) {
+						lp = append(lp, fmt.Sprintf("read of %d bytes: step %d does not consume byte %d", nn, i, i))
+						break
+					}
+				}
+			}
+			c.R.AddCells(len(ps))
+		}
+		c.verdict(rule, rule+"/Read-long", c.P.FuncPos(f), uniq(lp), "reads of 7..33 bytes: one automaton step per byte, in order")
+	}
+
 	if v := c.method(rule, wsutil, "UTF8Reader", "Valid"); v != nil {
 		m2 := c.machine()
 		var p2 []string
